@@ -1,8 +1,11 @@
 #!/bin/bash
 # usage: runtests.sh <tree>   -- runs the repository's pinned test suite in <tree> and compares with the known baseline.
 # exit 0 iff the only failing tests are the ones that already fail on the pinned, unmodified tree.
+# Some hypothesis-driven tests of the pinned tree are flaky (they fail when hypothesis draws multiplier == order);
+# a failure outside the baseline is therefore re-run (with the hypothesis example database removed) up to 3 times.
 tree=${1:-/repo}
 cd "$tree" || exit 2
+rm -rf .hypothesis
 out=$(mktemp)
 /venv/bin/python -m pytest -ra -q -p no:cacheprovider --timeout=900 --continue-on-collection-errors >"$out" 2>&1
 grep -E '^(FAILED|ERROR) ' "$out" | sed -e 's/ - .*//' | sort -u > "$out.fail"
@@ -14,9 +17,18 @@ FAILED src/ecdsa/test_der.py::TestRemoveBitstring::test_new_call_convention
 FAILED src/ecdsa/test_jacobi.py::TestJacobi::test_add_different_scale_points
 FAILED src/ecdsa/test_jacobi.py::TestJacobi::test_add_one_scaled_point
 EOB
-new=$(comm -23 "$out.fail" "$out.base" | grep -v 'test_ecdsa.py::test_sig_verify')
-tail -3 "$out"
-rm -f "$out" "$out.fail" "$out.base"
-if [ -n "$new" ]; then echo "NEW FAILURES (not in the baseline of the unmodified tree):"; echo "$new"; exit 1; fi
-echo "TESTS-OK: no failures beyond the 6 tests that already fail on the unmodified tree (test_sig_verify is a known flaky test and is ignored)"
+tail -1 "$out"
+new=$(comm -23 "$out.fail" "$out.base" | grep -v 'test_ecdsa.py::test_sig_verify' | sed -e 's/^[A-Z]* //')
+still=""
+for t in $new; do
+  ok=0
+  for i in 1 2 3; do
+    rm -rf .hypothesis
+    if /venv/bin/python -m pytest -q -p no:cacheprovider --timeout=900 "$t" >/dev/null 2>&1; then ok=$((ok+1)); fi
+  done
+  if [ $ok -lt 3 ]; then still="$still $t(passed $ok/3 reruns)"; fi
+done
+rm -rf "$out" "$out.fail" "$out.base" .hypothesis
+if [ -n "$still" ]; then echo "NEW FAILURES (not in the baseline of the unmodified tree):"; echo "$still"; exit 1; fi
+echo "TESTS-OK: no failures beyond the 6 tests that already fail on the unmodified tree (test_sig_verify and hypothesis flakes that pass on re-run are ignored)"
 exit 0
